@@ -41,6 +41,19 @@ func c09NewSet(store kvstore.KVStore) Set[[32]byte, c09Key] {
 	return NewSet[[32]byte](store, typeutils.ByteArray32ToBytes, typeutils.ByteArray32FromBytes, c09Key.Bytes, c09KeyFromBytes)
 }
 
+// c09Store: the store handed to the map is the root of a database or a view inside it whose realm starts with a
+// zero byte (the map keeps its raw keys, trie nodes, root and size in sub-realms 0..3 of whatever it is given).
+func c09Store() kvstore.KVStore {
+	root := mapdb.NewMapDB()
+	if verifrt.Choose("realm", 2) == 0 {
+		return root
+	}
+	view, err := root.WithExtendedRealm([]byte{0})
+	verifrt.Assert(err == nil, "WithExtendedRealm failed")
+
+	return view
+}
+
 type c09Model struct {
 	present [3]bool
 	val     [3]c09Val
@@ -224,7 +237,7 @@ func H_C09_map() {
 //
 //verif:h prop=C09 p.ops=2/3 p.maxlen=1/2 cover=overwrite-only,mixed solverms=5000 portfolio=15 runs=3000000 timeout=900/900 steps=3000000
 func H_C09_reopen() {
-	store := mapdb.NewMapDB()
+	store := c09Store()
 	m := c09NewMap(store)
 	model := &c09Model{}
 	maxLen := verifrt.Param("maxlen", 1)
@@ -278,7 +291,7 @@ func H_C09_reopen() {
 //
 //verif:h prop=C09 p.ops=3/4 cover=add,add-again,delete-hit,delete-miss,reopen
 func H_C09_set() {
-	store := mapdb.NewMapDB()
+	store := c09Store()
 	s := c09NewSet(store)
 	var present [3]bool
 	committed := false
